@@ -135,6 +135,17 @@ pub struct Failure {
     pub size: usize,
 }
 
+/// How a non-trivial case enters `distinct_nontrivial`: `Enum` = member of an enumeration
+/// whose cases are distinct by construction (and not contained in an earlier enumeration);
+/// `Hash` = generated, distinctness measured with a hash set; `No` = already covered by an
+/// earlier enumeration of the same run, not counted again.
+#[derive(Clone, Copy, PartialEq, Eq, Debug)]
+pub enum Count {
+    Enum,
+    Hash,
+    No,
+}
+
 const MAX_SAMPLES: usize = 8;
 const HASH_CAP: usize = 5_000_000;
 
@@ -201,6 +212,15 @@ impl Stats {
             }
         } else {
             self.nt_overflow += 1;
+        }
+    }
+    /// count a non-trivial case according to where it came from
+    #[inline]
+    pub fn count(&mut self, mode: Count, h: u64, case: impl FnOnce() -> Value) {
+        match mode {
+            Count::Enum => self.nontrivial_enum(h, case),
+            Count::Hash => self.nontrivial(h, case),
+            Count::No => {}
         }
     }
     pub fn fail(&mut self, sig: impl Into<String>, case: Value, size: usize, detail: impl Into<String>) {
